@@ -81,7 +81,7 @@ def run(ctx):
     for i in range(ninputs):
         inp, users = gi.stream_input(ctx.rng, force_long=(ctx.rng.choice([4096, 4097, 5000, 8192, 9000]) if i == 0 else None))
         confs = ctx.rng.sample(allbits, min(nconf, len(allbits)))
-        ref_tables = None
+        ref_tables = {}          # position of the call within its instance's history -> (tables, cfg)
         # consecutive calls on one instance, switches changed between calls (groups of 4)
         for g in range(0, len(confs), 4):
             grp = confs[g:g + 4]
@@ -92,7 +92,7 @@ def run(ctx):
             if "crash" in results[0]:
                 ctx.violation("harness run crashed / gave no result", {"input": inp, "result": results[0]})
                 break
-            for (cfg, _), res in zip(calls, results):
+            for pos, ((cfg, _), res) in enumerate(zip(calls, results)):
                 evals += 1
                 hist["calls"] += 1
                 hist["calls_with_errors"] += 1 if res["ret"] else 0
@@ -104,15 +104,20 @@ def run(ctx):
                     ctx.violation(d, {"input": inp, "cfg": tracelib.cfg_json(cfg)})
                 elif cfg["dump"][0] and cfg["dump"][1] and "DUMP" in inp:
                     hist["dump_compared"] += 1
-                # switches never change computed results: compare tables with the first call's
+                # switches never change computed results: compare with the call at the SAME position of another instance's
+                # history (every group starts from a fresh instance + database load and repeats the same input, so calls at
+                # equal positions have identical histories and differ only in the switch configuration; comparing the first
+                # call of an instance with a later one would mix in the solver's dependence on earlier estimates, e.g. an
+                # undetermined pe)
                 tabs = table_cells(res["views"])
-                if ref_tables is None:
-                    ref_tables = (tabs, cfg)
+                if pos not in ref_tables:
+                    ref_tables[pos] = (tabs, cfg)
                 else:
                     hist["paired_tables"] += 1
-                    if not tables_close(ref_tables[0], tabs):
+                    if not tables_close(ref_tables[pos][0], tabs):
                         ctx.violation("selected-output values differ between two switch configurations",
-                                      {"input": inp, "cfg": tracelib.cfg_json(cfg), "cfg_ref": tracelib.cfg_json(ref_tables[1])})
+                                      {"input": inp, "position": pos, "cfg": tracelib.cfg_json(cfg),
+                                       "cfg_ref": tracelib.cfg_json(ref_tables[pos][1]), "kind": "paired"})
                 if ctx.violations:
                     break
             if ctx.violations:
@@ -204,6 +209,20 @@ def replay(ctx, data):
     if "broken" in data:
         print("replay names broken obligations:", data["broken"])
         return run(ctx)
+    if data.get("kind") == "paired":
+        # two fresh instances, same input repeated position+1 times; only the last call's configuration differs
+        exe = ctx.build_harness("ph_trace")
+        ctx.prove(["PhreeqcVerif.Properties.Route"])
+        ref, cfg, pos = tracelib.cfg_from_json(data["cfg_ref"]), tracelib.cfg_from_json(data["cfg"]), int(data.get("position", 0))
+        a = tracelib.run_calls(ctx, exe, [(ref, data["input"])] * (pos + 1))
+        b = tracelib.run_calls(ctx, exe, [(ref, data["input"])] * pos + [(cfg, data["input"])])
+        if "crash" in a[0] or "crash" in b[0]:
+            ctx.violation("crash on replay", data)
+        elif not tables_close(table_cells(a[-1]["views"]), table_cells(b[-1]["views"])):
+            ctx.violation("replayed: selected-output values differ between the two switch configurations", data)
+        else:
+            print("replay: tables agree")
+        return
     tracelib.replay(ctx, data)
 
 
